@@ -6,6 +6,7 @@ import (
 	"net"
 	"net/http"
 	"net/url"
+	"regexp"
 	"strings"
 	"sync"
 	"time"
@@ -42,8 +43,11 @@ type Stub struct {
 	srv           *http.Server
 	ln            net.Listener
 	Unknown       int // queries with a secret nobody registered
+	UnknownOurs   int
 	UnknownSample []string
 }
+
+var reOurs = regexp.MustCompile(`^b\d{6}a\d+$`)
 
 func NewStub() (*Stub, error) {
 	ln, err := net.Listen("tcp", "127.0.0.1:0")
@@ -139,6 +143,9 @@ func (s *Stub) handle(w http.ResponseWriter, r *http.Request) {
 	sc := s.scripts[secret]
 	if sc == nil {
 		s.Unknown++
+		if reOurs.MatchString(secret) {
+			s.UnknownOurs++
+		}
 		if len(s.UnknownSample) < 3 {
 			s.UnknownSample = append(s.UnknownSample, fmt.Sprintf("%s %s secret=%q", r.Method, r.RequestURI, secret))
 		}
